@@ -56,6 +56,8 @@ type interpreter struct {
 	extCache     map[*ssa.Function]externalFn
 	sampleCtr    int
 	noLazy       bool
+	cutNotes     map[string]bool
+	curFn        string
 	solverPC     []*Term // path-condition elements currently asserted, one push level each
 }
 
@@ -288,10 +290,14 @@ func visitInstr(fr *frame, instr ssa.Instruction) continuation {
 		*addr = zero(mustDeref(instr.Type()))
 
 	case *ssa.MakeSlice:
+		i.curFn = fr.fn.String()
 		ln := i.makeSize(fr.get(instr.Len), "make: len")
 		cp := i.makeSize(fr.get(instr.Cap), "make: cap")
 		if ln < 0 || cp < ln {
 			i.raise("makeslice: len out of range")
+		}
+		if cp > 1<<24 {
+			i.abort("budget", "allocation of %d elements in %s is beyond what the engine executes", cp, fr.fn)
 		}
 		slice := make([]value, cp)
 		tElt := instr.Type().Underlying().(*types.Slice).Elem()
@@ -419,10 +425,24 @@ func (i *interpreter) makeSize(v value, what string) int64 {
 			okc := i.ts.And(i.ts.BVCmp("bvsle", i.ts.BV(t.sort.W, 0), t), i.ts.BVCmp("bvsle", t, lim))
 			i.doAssert(i.unterm(okc), "alloc-bound", false, what+" sized by a symbolic value above the allocation bound")
 		}
+		if i.cfg != nil && i.cfg.AllocCut {
+			// deliberate cut: everything up to this allocation was decided for all sizes; beyond it
+			// the path continues with one representative size (a small one if possible)
+			small := i.ts.BVCmp("bvule", t, i.ts.BV(t.sort.W, 256))
+			if i.preferNoFork(small) {
+				i.addPC(small)
+			}
+			v := i.pick(t)
+			i.addPC(i.ts.Eq(t, i.ts.BV(t.sort.W, v)))
+			i.cutNotes["allocation in "+callerFn(i)+" continued with one representative size"] = true
+			return int64(v)
+		}
 		return int64(i.concretize(t, what))
 	}
 	return asInt64(v)
 }
+
+func callerFn(i *interpreter) string { return i.curFn }
 
 func (i *interpreter) allocTooBig(n int64, instr ssa.Instruction) {
 	i.doAssert(false, "alloc-bound", false, fmt.Sprintf("allocation of %d elements exceeds the declared bound", n))
